@@ -203,20 +203,23 @@ def route_cases(tier):
                         if nd == 2 and drop == "none":
                             for cb in charges:
                                 for cc in charges:
-                                    Bc = partner(A, 1, 1, charge=cb, tag="b")
-                                    if Bc is None:
-                                        continue
-                                    Bc.label = 2
-                                    Cc = partner(Bc, 1, 1, charge=cc, tag="c")
-                                    if Cc is not None:
-                                        Cc.label = 3
-                                        chains.append((A, Bc, Cc, "chain"))
-                                    # triangle: C = (k*, i*): conj of B's last and A's first index
-                                    tabs = (Bc.tables[-1], A.tables[0])
-                                    dl = (not Bc.duals[-1], not A.duals[0])
-                                    Ct = Spec(sym, dl, cc, tabs, fermionic=True, signs=1, tag="c", label=3)
-                                    if Ct.sectors():
-                                        chains.append((A, Bc, Ct, "triangle"))
+                                    # every assignment of three distinct labels to the three tensors
+                                    for la, lb, lc in itertools.permutations((1, 2, 3)):
+                                        A2 = Spec(sym, duals, ca, TABLES[sym][:nd], drop=drop, fermionic=True, signs=1, tag="a", label=la)
+                                        Bc = partner(A2, 1, 1, charge=cb, tag="b")
+                                        if Bc is None:
+                                            continue
+                                        Bc.label = lb
+                                        Cc = partner(Bc, 1, 1, charge=cc, tag="c")
+                                        if Cc is not None:
+                                            Cc.label = lc
+                                            chains.append((A2, Bc, Cc, "chain"))
+                                        # triangle: C = (k*, i*): conj of B's last and A's first index
+                                        tabs = (Bc.tables[-1], A2.tables[0])
+                                        dl = (not Bc.duals[-1], not A2.duals[0])
+                                        Ct = Spec(sym, dl, cc, tabs, fermionic=True, signs=1, tag="c", label=lc)
+                                        if Ct.sectors():
+                                            chains.append((A2, Bc, Ct, "triangle"))
     return pairs, chains
 
 
